@@ -1473,6 +1473,28 @@ def run_export(repo, chk):
         if isinstance(c, ast.Call) and isinstance(c.func, ast.Attribute) and c.func.attr == "update" and len(c.args) == 1 and isinstance(c.args[0], ast.Name):
             if c.args[0].id in popped:
                 merged.add(popped[c.args[0].id])
+    # by interpretation first: a card whose $top / $finals are dicts (the export's form) - what the particle table holds
+    try:
+        import sympy as _sp3
+
+        from ..sym import Translator as _Tr3
+
+        def _isinst3(tr_, args, kwargs, node):
+            names = {x.id for x in ast.walk(node.args[1]) if isinstance(x, ast.Name)} if len(node.args) > 1 else set()
+            table = {"list": list, "dict": dict, "str": str}
+            return any(nm in table and isinstance(args[0], table[nm]) for nm in names)
+
+        card = {"$top": {"A": {"J": _sp3.Integer(1)}}, "$finals": {"B": {"J": _sp3.Integer(0)}, "C": {"J": _sp3.Integer(0)}}, "R": ["R1"], "R1": {"J": _sp3.Integer(2)}}
+        out3 = _Tr3(repo, hooks={"builtin.isinstance": _isinst3, "allow_attr_store": True, "allow_raise": True}, max_depth=3).call_fn(pi, [card])
+        props3 = out3[1] if isinstance(out3, tuple) and len(out3) >= 2 and isinstance(out3[1], dict) else None
+        if props3 is not None:
+            merged = set()
+            if "A" in props3:
+                merged.add("$top")
+            if "B" in props3 and "C" in props3:
+                merged.add("$finals")
+    except Exception as e3:
+        chk.info("C-key: particle_item not interpreted (%s); the merge is read off its statements" % str(e3)[:80])
     chk.instance("C-key", "particle_item merges dict-valued sections into the particle table: %s" % sorted(merged))
     for need in ("$top", "$finals"):
         if need not in merged:
@@ -1543,7 +1565,28 @@ def run_isolation(repo, chk):
     ) or any(isinstance(n, ast.Assign) and isinstance(n.targets[0], ast.Subscript) and isinstance(n.targets[0].value, ast.Subscript) for n in walk_local(inc.node))
     ret_ok = None
     param = lc.all_param_names()[0]
-    for n in walk_local(lc.node):
+    # by interpretation first: a nested table goes in, what comes out shares no container with it
+    try:
+        import sympy as _sp2
+
+        from ..sym import Translator as _Tr2, Unmodelled as _Un2
+
+        def _isinst(tr_, args, kwargs, node):
+            names = {x.id for x in ast.walk(node.args[1]) if isinstance(x, ast.Name)} if len(node.args) > 1 else set()
+            table = {"list": list, "dict": dict, "str": str}
+            return any(nm in table and isinstance(args[0], table[nm]) for nm in names)
+
+        nested = {"R": {"J": _sp2.Integer(1), "sub": {"k": [_sp2.Integer(1), _sp2.Integer(2)]}}, "S": [_sp2.Integer(3)]}
+        out_ = _Tr2(repo, hooks={"builtin.isinstance": _isinst, "allow_attr_store": True}, max_depth=3).call_fn(lc, [nested], self_obj=None) if "self" not in lc.all_param_names() else None
+        if isinstance(out_, dict):
+            shares = out_ is nested or out_.get("R") is nested["R"] or (isinstance(out_.get("R"), dict) and out_["R"].get("sub") is nested["R"]["sub"]) or out_.get("S") is nested["S"]
+            same = isinstance(out_.get("R"), dict) and out_["R"].get("J") == nested["R"]["J"] and isinstance(out_["R"].get("sub"), dict) and list(out_["R"]["sub"].get("k", [])) == list(nested["R"]["sub"]["k"])
+            ret_ok = (not shares) and same
+            ret_text = "a table that %s" % ("shares no container with the argument" if ret_ok else "shares a container with the argument" if shares else "differs from the argument")
+    except Exception as e_:   # not interpretable: the statement-level rule below decides
+        chk.info("D-copy: load_config(dict) not interpreted (%s); decided on the return statement" % str(e_)[:80])
+        ret_ok = None
+    for n in (walk_local(lc.node) if ret_ok is None else []):
         if isinstance(n, ast.If) and "isinstance(%s, dict)" % param in norm_text(n.test):
             for r in [x for st in n.body for x in ast.walk(st) if isinstance(x, ast.Return)]:
                 v = r.value
@@ -1694,6 +1737,33 @@ def run_include_and_dedup(repo, chk):
         chk.violation("D-dedup", ad.key, "idempotent", "registering a decay that is already listed gives %s: a decay shared by several chains is exported once per chain, so every re-load multiplies the chains" % (so.attrs["decay"],), file=PART, line=ad.lineno)
 
 
+def run_add_decay(repo, chk):
+    """a particle registers each of its decays once, however many equal decay objects the loader builds (the export
+    writes one entry per chain, so a decay shared by several cascades is declared several times)"""
+    from ..sym import SelfObj, Translator, Unmodelled
+    from .c14 import TokD, TokP
+    PARF = "tf_pwa/particle.py"
+    chk.rule("D-once", "BaseParticle.add_decay interpreted with equal but distinct decay objects (same mother and daughters, daughters also in the other order): the particle lists the decay once - a card that declares a decay several times (every export of a cascade does) must not enumerate its chains repeatedly")
+    cls = repo.cls(PARF + "::BaseParticle")
+    fn = cls.methods.get("add_decay")
+    if fn is None:
+        raise AnalysisError("anchor vanished: BaseParticle.add_decay")
+    A, B, C, D = TokP("A"), TokP("B"), TokP("C"), TokP("D")
+    d1, d2, d3, e1 = TokD(A, (B, C)), TokD(A, (B, C)), TokD(A, (C, B)), TokD(A, (B, D))
+    so = SelfObj(cls, {"decay": []})
+    tr = Translator(repo, hooks={"allow_attr_store": True}, max_depth=2)
+    try:
+        for d in (d1, d2, d3, e1, d1):
+            tr.call_fn(fn, [d], self_obj=so)
+    except Unmodelled as e:
+        raise AnalysisError("BaseParticle.add_decay cannot be interpreted: %s" % e)
+    got = list(so.attrs["decay"])
+    ok = len(got) == 2 and got[0] == d1 and got[1] == e1
+    chk.oblige("D-once", "add_decay(A->B+C) x2, add_decay(A->C+B), add_decay(A->B+D), add_decay(A->B+C): decays == [A->B+C, A->B+D]", ok)
+    if not ok:
+        chk.violation("D-once", fn.key, "duplicate", "after registering A->B+C three times (two equal objects and one with the daughters swapped) and A->B+D once the particle lists %s: a decay declared more than once - as in every exported cascade - multiplies the chains built from it" % (got,), file=PARF, line=fn.lineno)
+
+
 def run(repo, chk, tier):
     from ..cacheown import check_persistent_state
 
@@ -1722,6 +1792,7 @@ def run(repo, chk, tier):
     run_isolation(repo, chk)
     run_empty_candidates(repo, chk)
     run_include_and_dedup(repo, chk)
+    run_add_decay(repo, chk)
     from ..cacheown import check_cache_ownership
 
     # memoised chain/decay structure (ls lists, ids, sorted tables, swap maps) is shared between loads
